@@ -61,15 +61,6 @@ Fixpoint spec_lines (cur : bool) (toks : list token) : nat :=
 (* "lines holding a non-blank character outside comments" of a text *)
 Definition code_lines (text : chars) : nat := spec_lines false (lex text).
 
-(* every comment that spans a line break starts its line (only blanks before it on that line) *)
-Fixpoint ml_ok (cur : bool) (toks : list token) : bool :=
-  match toks with
-  | [] => true
-  | TCode c :: r => ml_ok (snd (run_code cur [c])) r
-  | TLit s :: r => ml_ok (snd (run_code cur s)) r
-  | TComment s :: r => (negb (existsb is_nl s) || negb cur) && ml_ok (snd (run_comment cur s)) r
-  end.
-
 Lemma count_lines_app cur a b :
   count_lines cur (a ++ b) = fst (run_code cur a) + count_lines (snd (run_code cur a)) b.
 Proof.
@@ -79,55 +70,51 @@ Proof.
   - apply IH.
 Qed.
 
-Lemma run_comment_no_nl cur s : existsb is_nl s = false -> run_comment cur s = (0, cur).
-Proof.
-  revert cur. induction s as [|c t IH]; intros cur H; simpl in *; [reflexivity|].
-  apply orb_false_iff in H. destruct H as [H1 H2]. rewrite H1. apply IH. exact H2.
-Qed.
-
-Lemma run_comment_blank s : fst (run_comment false s) = 0 /\ snd (run_comment false s) = false.
-Proof.
-  induction s as [|c t IH]; simpl; [split; reflexivity|].
-  destruct (is_nl c); [|exact IH]. destruct (run_comment false t) as [k e]. simpl in *. exact IH.
-Qed.
-
 Lemma space_is_space : is_space " "%char = true. Proof. reflexivity. Qed.
 Lemma space_not_nl : is_nl " "%char = false. Proof. reflexivity. Qed.
 
-Theorem loc_partial_tokens toks cur :
-  ml_ok cur toks = true -> count_lines cur (flat_map emit toks) = spec_lines cur toks.
+(* the line breaks kept for a comment close exactly the lines the comment closes *)
+Lemma count_lines_nls cur s b :
+  count_lines cur (filter is_nl s ++ b) = fst (run_comment cur s) + count_lines (snd (run_comment cur s)) b.
 Proof.
-  revert cur. induction toks as [|t r IH]; intros cur H; [reflexivity|].
-  destruct t as [c|s|s]; cbn [flat_map emit]; cbn [ml_ok] in H.
-  - rewrite count_lines_app. cbn [spec_lines]. destruct (run_code cur [c]) as [k e] eqn:E. cbn [fst snd] in *.
-    rewrite IH; [reflexivity | exact H].
-  - (* comment -> one space *)
-    apply andb_true_iff in H. destruct H as [H1 H2].
-    cbn [app count_lines]. rewrite space_not_nl, space_is_space. cbn [negb]. rewrite orb_false_r.
-    cbn [spec_lines].
-    destruct (existsb is_nl s) eqn:En.
-    + cbn [negb orb] in H1. apply negb_true_iff in H1. subst cur.
-      destruct (run_comment_blank s) as [F S]. destruct (run_comment false s) as [k e]. cbn [fst snd] in *. subst.
-      rewrite IH; [reflexivity | exact H2].
-    + rewrite (run_comment_no_nl cur s En) in *. cbn [snd] in H2. rewrite IH; [reflexivity | exact H2].
-  - rewrite count_lines_app. cbn [spec_lines]. destruct (run_code cur s) as [k e] eqn:E. cbn [fst snd] in *.
-    rewrite IH; [reflexivity | exact H].
+  revert cur. induction s as [|c t IH]; intros cur; simpl; [reflexivity|].
+  destruct (is_nl c) eqn:E.
+  - simpl. rewrite E. rewrite IH. destruct (run_comment false t) as [k e]. simpl. lia.
+  - apply IH.
 Qed.
 
-Theorem loc_partial text : ml_ok false (lex text) = true -> loc text = code_lines text.
-Proof. intros H. rewrite loc_count. unfold del_comments, code_lines. apply loc_partial_tokens. exact H. Qed.
+Lemma run_comment_no_nl cur s : filter is_nl s = [] -> run_comment cur s = (0, cur).
+Proof.
+  revert cur. induction s as [|c t IH]; intros cur H; simpl in *; [reflexivity|].
+  destruct (is_nl c); [discriminate|]. apply IH. exact H.
+Qed.
 
-(* the full statement is false: a block comment spanning a line break between two pieces of code (D11) *)
-Definition d11_text : chars := map ascii_of_nat [97; 59; 47; 42; 10; 42; 47; 98; 59].   (* a;/*<nl>*/b; *)
+Theorem loc_tokens toks cur : count_lines cur (flat_map emit toks) = spec_lines cur toks.
+Proof.
+  revert cur. induction toks as [|t r IH]; intros cur; [reflexivity|].
+  destruct t as [c|s|s]; cbn [flat_map emit spec_lines].
+  - rewrite count_lines_app. destruct (run_code cur [c]) as [k e]. cbn [fst snd]. rewrite IH. reflexivity.
+  - destruct (filter is_nl s) as [|n0 ns] eqn:F.
+    + rewrite (run_comment_no_nl cur s F). cbn [app count_lines]. rewrite space_not_nl, space_is_space. cbn [negb].
+      rewrite orb_false_r, IH. reflexivity.
+    + rewrite <- F, count_lines_nls. destruct (run_comment cur s) as [k e]. cbn [fst snd]. rewrite IH. reflexivity.
+  - rewrite count_lines_app. destruct (run_code cur s) as [k e]. cbn [fst snd]. rewrite IH. reflexivity.
+Qed.
 
-Lemma loc_refuted : exists text, loc text = 1 /\ code_lines text = 2.
-Proof. exists d11_text. vm_compute. split; reflexivity. Qed.
+(* loc = number of physical lines holding a non-blank character outside comments, for EVERY text *)
+Theorem loc_spec text : loc text = code_lines text.
+Proof. rewrite loc_count. unfold del_comments, code_lines. apply loc_tokens. Qed.
 
-(* non-vacuity: a text with a multi-line header comment, a literal holding comment markers, a line comment *)
+(* regression (D11, fixed by 01c7197): code, a block comment spanning a line break, code *)
+Definition d11_text : chars := map ascii_of_nat [97; 59; 47; 42; 10; 42; 47; 98; 59].
+Example loc_d11 : loc d11_text = 2 /\ code_lines d11_text = 2.
+Proof. vm_compute. split; reflexivity. Qed.
+
+(* a text with a multi-line header comment, a literal holding comment markers, a line comment *)
 Definition ex_text : chars :=
   map ascii_of_nat [47;42;32;104;10;32;42;47;10;120;61;34;47;42;34;59;32;47;47;32;99;10;10;121;59;32;47;42;99;42;47;10].
-Example loc_nonvacuous : ml_ok false (lex ex_text) = true /\ loc ex_text = 2 /\ code_lines ex_text = 2.
-Proof. vm_compute. repeat split. Qed.
+Example loc_example : loc ex_text = 2 /\ code_lines ex_text = 2.
+Proof. vm_compute. split; reflexivity. Qed.
 
 (* del_comments is exactly: copy code characters and literals, one space per comment *)
 Lemma del_comments_tokens text : del_comments text = flat_map emit (lex text).
